@@ -279,6 +279,129 @@ func runC30(c *vh.Ctx) {
 			}
 		}
 	}
+	c30Reuse(c)
+}
+
+// c30Reuse: "deterministic in (seed, salt)" is about the VALUE the seed holds when the call is made. Every entry point that
+// takes a *PRNGSeed is driven through ONE seed variable whose contents are overwritten between calls (same salt again,
+// another salt, unsalted, interleaved in random order), and compared with what the same (value, salt) gives through a
+// variable of its own that is never touched again. PRNGs are also drawn from only after the variable they were made from
+// has been overwritten (the PRNG must not alias the caller's seed), and the call must leave the caller's seed as it was.
+func c30Reuse(c *vh.Ctx) {
+	first32 := func(p *tls.VerifPRNG) string {
+		b := make([]byte, 32)
+		p.Read(b)
+		return string(b)
+	}
+	rounds := 24
+	if c.Tier == "thorough" {
+		rounds = 200
+	}
+	for r := 0; r < rounds; r++ {
+		nv := 2 + c.Rng.Intn(3)
+		vals := make([]tls.PRNGSeed, nv)
+		for i := range vals {
+			c.Rng.Read(vals[i][:])
+			if i > 0 && c.Rng.Intn(3) == 0 { // a seed that differs from the previous one in a single byte
+				vals[i] = vals[i-1]
+				vals[i][c.Rng.Intn(len(vals[i]))] ^= byte(1 + c.Rng.Intn(255))
+			}
+		}
+		salts := []string{"ALPS", fmt.Sprint("salt", r)}
+		for len(salts) < 2+c.Rng.Intn(3) {
+			b := make([]byte, 1+c.Rng.Intn(60))
+			c.Rng.Read(b)
+			b[len(b)-1] |= 1 // no trailing zero byte: keeps clear of the known trailing-NUL collisions
+			salts = append(salts, string(b))
+		}
+		// reference streams: each (value, salt) through a seed variable of its own that is never written again
+		var own []*tls.PRNGSeed
+		fresh := func(i int) *tls.PRNGSeed {
+			v := new(tls.PRNGSeed)
+			*v = vals[i]
+			own = append(own, v)
+			return v
+		}
+		ref := make([][]string, nv) // ref[i][0] unsalted, ref[i][1+s] salted with salts[s]
+		for i := range vals {
+			ref[i] = make([]string, 1+len(salts))
+			u, _ := tls.VerifNewPRNG(fresh(i))
+			ref[i][0] = first32(u)
+			for s, sl := range salts {
+				p, _ := tls.VerifNewSaltedPRNG(fresh(i), sl)
+				ref[i][1+s] = first32(p)
+			}
+		}
+		type later struct {
+			p    *tls.VerifPRNG
+			i, s int
+		}
+		var pending []later
+		cur := new(tls.PRNGSeed)
+		i, s := c.Rng.Intn(nv), c.Rng.Intn(1+len(salts))
+		*cur = vals[i]
+		steps := 8 + c.Rng.Intn(10)
+		for st := 0; st < steps; st++ {
+			prevI, prevS := i, s
+			if c.Rng.Intn(4) != 0 {
+				i = c.Rng.Intn(nv)
+				*cur = vals[i] // load another seed into the same variable
+			}
+			if c.Rng.Intn(2) == 0 {
+				s = c.Rng.Intn(1 + len(salts)) // 0 = unsalted
+			}
+			var p *tls.VerifPRNG
+			what := "unsalted"
+			salt := ""
+			if s == 0 {
+				p, _ = tls.VerifNewPRNG(cur)
+			} else {
+				salt = salts[s-1]
+				p, _ = tls.VerifNewSaltedPRNG(cur, salt)
+				what = "other-salt"
+				if s == prevS {
+					what = "same-salt"
+				}
+			}
+			if i != prevI {
+				what += "/seed-overwritten"
+			} else {
+				what += "/seed-kept"
+			}
+			c.Count("reused_seed_variable_calls")
+			in := map[string]any{"seed_now": vh.Hex(vals[i][:]), "seed_before": vh.Hex(vals[prevI][:]), "salt": vh.Hex([]byte(salt)), "salted": s != 0, "step": st}
+			if *cur != vals[i] {
+				c.Fail("seed-mutated/"+what, "creating a PRNG changed the caller's seed", in, vh.Hex(cur[:]), vh.Hex(vals[i][:]))
+				*cur = vals[i]
+			}
+			if c.Rng.Intn(3) == 0 {
+				pending = append(pending, later{p, i, s}) // drawn from after the variable has been overwritten
+				continue
+			}
+			got := first32(p)
+			if got != ref[i][s] {
+				c.Fail("seed-by-value/"+what, "the stream is not the one this (seed, salt) gives when the seed sits in a variable of its own: not a function of the seed's value at call time",
+					in, vh.Hex([]byte(got)), vh.Hex([]byte(ref[i][s])))
+			}
+			if len(salt) <= 40 && st%2 == 0 {
+				c.OracleCase("reuse", fmt.Sprintf("CSeedSalt %s %s %s %s %s %s", vh.Bytes(vals[i][:]), vh.Bytes(cur[:]), vh.Bytes([]byte(salt)), vh.Bytes([]byte(salt)),
+					vh.Bytes([]byte(ref[i][s][:8])), vh.Bytes([]byte(got[:8]))), "seed-by-value/"+what,
+					"same (seed value, salt) through a fresh and through a reused seed variable", in, i != prevI)
+			}
+		}
+		c.Rng.Read(cur[:]) // scribble over the variable, then use the PRNGs made from it earlier
+		for _, l := range pending {
+			kind := "salted"
+			if l.s == 0 {
+				kind = "unsalted"
+			}
+			if got := first32(l.p); got != ref[l.i][l.s] {
+				c.Fail("prng-aliases-seed/"+kind, "a PRNG created from a seed variable changed when that variable was overwritten afterwards",
+					map[string]any{"seed_at_creation": vh.Hex(vals[l.i][:]), "salted": l.s != 0}, vh.Hex([]byte(got)), vh.Hex([]byte(ref[l.i][l.s])))
+			}
+		}
+		_ = own
+	}
 }
 
 // concurrent callers: the multiset of words drawn equals the sequential stream split
